@@ -562,7 +562,53 @@ def _replace_model(edt, args, t):
     return old
 
 
+def _ok_or_model(edt, args, t):
+    """Option::ok_or / ok_or_else: Some(x) -> Ok(x), None -> Err(_)"""
+    a = args[0] if args else UNKNOWN
+    if a[0] == "agg" and a[4] == "Some":
+        return ("agg", "core::result::Result", list(a[2]), 0, "Ok")
+    if a[0] == "agg" and a[4] == "None":
+        return ("agg", "core::result::Result", [UNKNOWN], 1, "Err")
+    return UNKNOWN
+
+
+def _is_some_and_model(edt, args, t):
+    """Option::is_some_and / is_none_or on a known None: decided without running the closure"""
+    a = args[0] if args else UNKNOWN
+    last = (t.get("callee") or {}).get("fn", "").split("::")[-1].split("<")[0]
+    if a[0] == "agg" and a[4] == "None":
+        return ("c", last == "is_none_or")
+    if a[0] == "agg" and a[4] == "Some" and len(t.get("args") or []) >= 2:
+        # run the predicate: the closure is the nested function defined on the line its type names; it is specialised under the same type
+        # assumptions (e.g. the branch kind), and only a unanimous constant answer is used
+        import re
+        from .dataflow import op_place
+        p = op_place(t["args"][1])
+        ty = edt.fn.local_ty(p["l"]) if p is not None else ""
+        m = re.search(r":(\d+):\d+: \d+:\d+\}", ty)
+        cands = [edt.F.fns[c] for c in edt.F.closures_of(edt.fn.id)] if m else []
+        cands = [g for g in cands if g.line == int(m.group(1))] if m else []
+        if len(cands) == 1:
+            sub = EDT(edt.F, cands[0], type_assume=edt.type_assume)
+            rets = set()
+            for sp in sub.run():
+                if sp.end[0] != "return" or not sp.ret or sp.ret[0] != "c":
+                    return UNKNOWN
+                rets.add(bool(sp.ret[1]))
+            if len(rets) == 1:
+                return ("c", next(iter(rets)))
+    return UNKNOWN
+
+
 BUILTIN_MODELS = {
+    "core::option::Option::is_some_and": _is_some_and_model,
+    "core::option::Option::<T>::is_some_and": _is_some_and_model,
+    "core::option::Option::is_none_or": _is_some_and_model,
+    "core::option::Option::<T>::is_none_or": _is_some_and_model,
+    "core::option::Option::ok_or": _ok_or_model,
+    "core::option::Option::ok_or_else": _ok_or_model,
+    "core::option::Option::<T>::ok_or": _ok_or_model,
+    "core::option::Option::<T>::ok_or_else": _ok_or_model,
     "core::cmp::Ord::cmp": _cmp_model,
     "core::cmp::impls::<impl core::cmp::Ord for i32>::cmp": _cmp_model,
     "core::mem::replace": _replace_model,
